@@ -94,13 +94,34 @@ AtLoc(m0, cs, loc) ==
   IF loc.k = "reg" THEN RegGet(m0, loc.g, loc.id)
   ELSE LET spv == RegGet(m0, "gp", cs.sp) a == <<spv.x, spv.lo + loc.off>> IN
        IF spv.t = "ptr" /\ a \in DOMAIN m0.mem THEN m0.mem[a].v ELSE Junk
+(* An argument passed BY REFERENCE (Win64: 16-byte vectors; vectorcall: the 7th+ vector): the location holds the address of a    *)
+(* temporary the caller made.  Microsoft x64: "the caller allocates the memory for the copy and passes a pointer, 16-byte aligned". *)
+(* The temporary must be the caller's own outgoing-call memory: above the callee's argument/home area (8 bytes per position, at     *)
+(* least 4) and inside what the finalized frame reserves for calls (FuncFrame::call_stack_size - everything above belongs to the     *)
+(* caller's locals and spills), 16-byte aligned, and it must hold the designated vector.                                             *)
+ByRefReason(m0, cs, u) ==
+  LET v == AtLoc(m0, cs, u.loc)
+      spv == RegGet(m0, "gp", cs.sp)
+      src == cs.map[u.arg]
+      argArea == 8 * (IF Len(cs.cargs) > 4 THEN Len(cs.cargs) ELSE 4) IN
+  IF src = 0 \/ v.t # "ptr" \/ spv.t # "ptr" \/ v.x # spv.x THEN "not-a-stack-address"
+  ELSE LET rel == v.lo - spv.lo a == <<v.x, v.lo>> IN
+       IF rel < argArea THEN "inside-argument-area"
+       ELSE IF rel + u.loc.sz > cs.call_area THEN "outside-reserved-call-area"
+       ELSE IF v.lo % 16 # 0 THEN "misaligned"
+       ELSE IF ~(a \in DOMAIN m0.mem) THEN "temporary-not-written"
+       ELSE LET w == m0.mem[a].v fa == cs.floc[src] IN
+            IF w.t = "val" /\ w.i = FUnitOf(cs, src, u.vi) /\ w.c = "" /\ w.lo >= MMin(u.loc.sz, fa[u.vi].sz) THEN "ok" ELSE "wrong-contents"
 UnitOk(m0, cs, u) ==
   LET v == AtLoc(m0, cs, u.loc)
       src == cs.map[u.arg] IN
-  IF src = 0 THEN (u.vi > 1 \/ (v.t = "val" /\ v.i = ImmOf(cs, u.arg) /\ v.c = ""))
+  IF u.loc.ind THEN ByRefReason(m0, cs, u) = "ok"
+  ELSE IF src = 0 THEN (u.vi > 1 \/ (v.t = "val" /\ v.i = ImmOf(cs, u.arg) /\ v.c = ""))
   ELSE LET fa == cs.floc[src] IN
        u.vi > Len(fa) \/ (v.t = "val" /\ v.i = FUnitOf(cs, src, u.vi) /\ v.c = "" /\ v.lo >= MMin(u.loc.sz, fa[u.vi].sz))
 BadUnits(m0, cs) == { q \in 1..Len(CUnits(cs)) : ~UnitOk(m0, cs, CUnits(cs)[q]) }
+(* a local of f with known contents (written before the call) must still hold them when the call is reached *)
+LiveOk(m0, cs) == cs.live = 0 \/ \A t \in {9001, 9002} : \E a \in DOMAIN m0.mem : m0.mem[a].v = ImmV(t)
 AlignDemanded(cs) == cs.env \in {"x86-sysv", "x64-sysv", "x64-win", "a64-aapcs"}
 SpAligned(m0, cs) == LET spv == RegGet(m0, "gp", cs.sp) IN spv.t = "ptr" /\ spv.x \in {"arg", "sp"} /\ spv.lo % 16 = 0
 
@@ -136,7 +157,9 @@ Verdict ==
   ELSE IF m.fault # "" THEN <<cs.family, "fault", PrevOp>>
   ELSE IF AtCall /\ BadUnits(m, cs) # {}
        THEN LET u == CUnits(cs)[Min(BadUnits(m, cs))] IN
-            <<cs.family, "arg", cs.cargs[u.arg], IF cs.map[u.arg] = 0 THEN "imm" ELSE "v", u.loc.k, u.vi>>
+            IF u.loc.ind THEN <<cs.family, "arg-by-reference", ByRefReason(m, cs, u)>>
+            ELSE <<cs.family, "arg", cs.cargs[u.arg], IF cs.map[u.arg] = 0 THEN "imm" ELSE "v", u.loc.k, u.vi>>
+  ELSE IF AtCall /\ ~LiveOk(m, cs) THEN <<cs.family, "live-local-clobbered">>
   ELSE IF AtCall /\ AlignDemanded(cs) /\ ~SpAligned(m, cs) THEN <<cs.family, "stack-alignment">>
   ELSE <<>>
 Deferred == c > 0 /\ pc = 1 /\ Built(Case) /\ ~Judged(Case)
